@@ -18,7 +18,7 @@ CHECK_DEADLOCK FALSE
 
 
 R1 = """SPECIFICATION Spec
-CONSTANTS Srcs = {"a", "b"} Limit = %d Refresh = 3 TTL = 4 NegTTL = 2 Idle = 5 MaxTime = %d MaxSubmits = %d ForgetOnError = %s RecheckUnderLock = %s
+CONSTANTS Srcs = {"a", "b"} Limit = %d Refresh = 3 TTL = 4 NegTTL = 2 Idle = 5 MaxTime = %d MaxSubmits = %d ForgetOnError = %s RecheckUnderLock = %s CoalesceAnswers = %s
 INVARIANTS MonitorQuiet GaugesNonNegative
 CHECK_DEADLOCK FALSE
 """
@@ -91,15 +91,19 @@ def race(ctx, named):
 def run(ctx):
     # R1: the cache + dispatcher model composed with the monitor
     for lim, mt, ms in ([(2, 9, 2), (1, 6, 3)] if ctx.tier == "quick" else [(2, 9, 3), (1, 9, 3), (3, 12, 3)]):
-        ctx.tlc_check("InstanceCache", ctx.write_cfg("InstanceCache.%d-%d-%d.cfg" % (lim, mt, ms), R1 % (lim, mt, ms, "FALSE", "FALSE")),
+        ctx.tlc_check("InstanceCache", ctx.write_cfg("InstanceCache.%d-%d-%d.cfg" % (lim, mt, ms), R1 % (lim, mt, ms, "FALSE", "FALSE", "FALSE")),
                       label="limit=%d maxtime=%d submits=%d" % (lim, mt, ms), timeout=3000)
-    bad = ctx.tlc_check("InstanceCache", ctx.write_cfg("InstanceCache.forget.cfg", R1 % (2, 9, 2, "TRUE", "FALSE")), label="forget on error (must fail)", must_pass=False)
+    bad = ctx.tlc_check("InstanceCache", ctx.write_cfg("InstanceCache.forget.cfg", R1 % (2, 9, 2, "TRUE", "FALSE", "FALSE")), label="forget on error (must fail)", must_pass=False)
     if not bad.violated:
         raise vlib.MachineryError("vacuity: the forget-on-error variant was not refuted")
-    bad = ctx.tlc_check("InstanceCache", ctx.write_cfg("InstanceCache.recheck.cfg", R1 % (2, 9, 2, "FALSE", "TRUE")),
+    bad = ctx.tlc_check("InstanceCache", ctx.write_cfg("InstanceCache.recheck.cfg", R1 % (2, 9, 2, "FALSE", "TRUE", "FALSE")),
                         label="eviction re-checks the access time after the gauges were booked (must fail)", must_pass=False)
     if not bad.violated:
         raise vlib.MachineryError("vacuity: the re-check-under-lock variant was not refuted")
+    bad = ctx.tlc_check("InstanceCache", ctx.write_cfg("InstanceCache.coalesce.cfg", R1 % (2, 9, 3, "FALSE", "FALSE", "TRUE")),
+                        label="answers waiting for the consumer are coalesced per source (must fail)", must_pass=False)
+    if not bad.violated:
+        raise vlib.MachineryError("vacuity: the coalescing variant was not refuted")
     plans = [("bfs3", 3, None, None), ("sim10", 10, "num=%d" % (700 if ctx.tier == "quick" else 20000), 11)]
     if ctx.tier == "thorough":
         plans.insert(1, ("bfs4", 4, None, None))
